@@ -636,7 +636,9 @@ impl Prop for C08 {
     fn lanes(tier: Tier) -> Vec<Lane> {
         vec![Lane::new("main", tier.pick(400, 16_000))
             .cap(tier.pick(240, 1500))
-            .hang(None)
+            // a wedged loader keeps its pipe workers spinning: a case that burns two CPU-minutes
+            // (normal: well under a CPU-second) is reported as non-termination by the supervisor
+            .hang(Some(120))
             .floor(tier.pick(40, 2_000))]
     }
 
